@@ -155,10 +155,27 @@ def operand_classes(rng, n_rand):
     return s
 
 
+# known-answer inputs of the crate's own tests (scalar64.rs `reduction`, scalar/mod.rs `muladd_ivs`)
+KAT_WIDE = bytes([30, 1, 102, 252, 230, 223, 126, 62, 154, 62, 25, 173, 159, 16, 157, 227, 21, 140, 223, 132, 84, 209, 86,
+                  118, 35, 85, 26, 144, 12, 4, 76, 170, 93, 151, 77, 147, 32, 213, 10, 135, 235, 26, 71, 94, 108, 45, 193,
+                  229, 106, 233, 198, 109, 246, 81, 108, 91, 63, 108, 220, 6, 119, 115, 9, 117]).hex()
+KAT_MULADD = [
+    ([1, 0, 0, 0, 0xff] + [0] * 27, [0] * 32, [1, 2, 3, 4, 5, 6, 7, 8, 9, 10, 12, 13, 15, 16] + [0] * 18),
+    ([1] + [0] * 31, [1, 2, 3, 4, 5, 6, 7, 8, 9, 10, 12, 13, 15, 26, 17, 18, 19, 20, 1, 2, 3, 4, 5, 6, 7, 1, 2, 3, 4, 5, 6, 1], [0] * 32),
+    ([1] + [0] * 31, [1, 2, 3, 4, 5, 6, 7, 8, 9, 10, 12, 13, 15, 16, 17, 18, 19, 20, 1, 2, 3, 4, 5, 6, 7, 1, 2, 3, 4, 5, 6, 1],
+     [10, 20, 30, 40, 50, 60] + [0] * 26),
+    ([0, 0, 0, 30, 0, 0, 0, 0, 0, 0, 40, 0, 0, 0, 0, 0, 124] + [0] * 15,
+     [0, 0, 0, 0, 1, 2, 0, 4, 0, 0, 0, 8, 16, 32, 234] + [0] * 16 + [1], [0, 0, 0, 1, 1] + [0] * 24 + [1, 1, 1]),
+]
+
+
 def gen_C15(tier, rng):
     big = tier == "thorough"
     yield ("scalar.const zero", "const")
     yield ("scalar.const one", "const")
+    yield (f"scalar.reduce_wide {KAT_WIDE}", "kat")
+    for a, b, c in KAT_MULADD:
+        yield (f"scalar.muladd {bytes(a).hex()} {bytes(b).hex()} {bytes(c).hex()}", "kat")
     for v, kind in wide_values(tier, rng):
         yield (f"scalar.reduce_wide {le(v, 64)}", kind)
         if kind in ("wide.small", "wide.kL", "wide.barrett.sub1") or rng.randrange(8) == 0:
